@@ -9,6 +9,7 @@ import (
 	"os/exec"
 	"path/filepath"
 	"strings"
+	"syscall"
 	"time"
 
 	"pault.ag/go/debian/changelog"
@@ -46,7 +47,7 @@ func (c17) Batches(tier string, seed uint64) []core.Batch {
 func (c17) Mandatory(tier string) []string {
 	return []string{"full:entries>=2", "full:no-final-newline", "full:leading-blank-lines", "full:multi-distribution", "full:multi-option", "full:zone-half-hour", "full:zone-negative",
 		"prefix:between-entries", "prefix:in-header", "prefix:in-body", "prefix:in-trailer", "prefix:missing-only-final-newline", "prefix:empty", "outcome:error", "outcome:entries",
-		"malformed:version", "malformed:no-date", "malformed:month", "malformed:column0-body", "malformed:no-trailer", "malformed:indented-header", "full:line>=4096-bytes", "path:Parse", "path:ParseOne", "path:ParseOne-16-byte-reader", "path:ParseFile", "path:Parse-onebyte-reader", "path:Parse-data+EOF-reader", "path:Parse-failing-source", "full:entry-without-options", "full:body-line-of-blanks-only"}
+		"malformed:version", "malformed:no-date", "malformed:month", "malformed:column0-body", "malformed:no-trailer", "malformed:indented-header", "full:line>=4096-bytes", "path:Parse", "path:ParseOne", "path:ParseOne-16-byte-reader", "path:ParseFile", "path:ParseFile-fifo", "path:Parse-onebyte-reader", "path:Parse-data+EOF-reader", "path:Parse-failing-source", "full:entry-without-options", "full:body-line-of-blanks-only"}
 }
 
 type clEntry struct {
@@ -255,7 +256,7 @@ func parseOneLoopSized(text string, size int) ([]changelog.ChangelogEntry, error
 
 func (p c17) full(c *core.C, d clDoc) {
 	text, _, _ := d.render()
-	for _, path := range []string{"Parse", "Parse-onebyte-reader", "Parse-data+EOF-reader", "Parse-chunk-reader", "ParseFile", "ParseOne", "ParseOne-16-byte-reader", "ParseOne-200-byte-reader", "ParseOne-64KiB-reader"} {
+	for _, path := range []string{"Parse", "Parse-onebyte-reader", "Parse-data+EOF-reader", "Parse-chunk-reader", "ParseFile", "ParseFile-fifo", "ParseOne", "ParseOne-16-byte-reader", "ParseOne-200-byte-reader", "ParseOne-64KiB-reader"} {
 		var got []changelog.ChangelogEntry
 		var err error
 		switch path {
@@ -287,6 +288,43 @@ func (p c17) full(c *core.C, d clDoc) {
 					c.Failf("ParseFileOne: %s", diff)
 				}
 			}
+			os.Remove(fp)
+		case "ParseFile-fifo":
+			// a path that is not a regular file (a named pipe, /dev/stdin): its size says nothing about its content
+			dir := os.Getenv("VERIF_WORK_RUN")
+			if dir == "" || len(text)%4 != 0 {
+				continue
+			}
+			fp := filepath.Join(dir, fmt.Sprintf("c17-%d.fifo", os.Getpid()))
+			os.Remove(fp)
+			if syscall.Mkfifo(fp, 0o600) != nil {
+				continue
+			}
+			done := make(chan struct{})
+			go func() {
+				defer close(done)
+				if w, err := os.OpenFile(fp, os.O_WRONLY, 0); err == nil {
+					io.WriteString(w, text)
+					w.Close()
+				}
+			}()
+			var g changelog.ChangelogEntries
+			g, err = changelog.ParseFile(fp)
+			got = g
+			// the writer may still be blocked in open() or write(): let it through
+			if rd, e := os.OpenFile(fp, os.O_RDONLY|syscall.O_NONBLOCK, 0); e == nil {
+				for k := 0; k < 200; k++ {
+					select {
+					case <-done:
+						k = 200
+					default:
+						io.Copy(io.Discard, rd)
+						time.Sleep(time.Millisecond)
+					}
+				}
+				rd.Close()
+			}
+			<-done
 			os.Remove(fp)
 		case "ParseOne":
 			got, err = parseOneLoop(text)
